@@ -20,7 +20,7 @@ import Rivia.Lemmas.WalkCF
 namespace Rivia.Props
 open Rivia Rivia.Memfs Rivia.Spec
 open Rivia.Spec.TreeFs (pathLt)
-open Rivia.Lemmas.WalkCF (ExactDom2 FlagsExcl FlagsOkFor)
+open Rivia.Lemmas.WalkCF (ExactDom2 ExactDom3 FlagsExcl FlagsOkFor)
 
 /-! ### small concrete snapshots used as witnesses -/
 
@@ -96,7 +96,7 @@ theorem C08_max_desc_irrelevant (snap : Snap) (o : Opts) (rootE : Entry) (m : Na
     Lemmas.Walk.collectEntries_pre (o := { o with maxDesc := m }) hwf hfol hcf hord hk hroot]
   exact congrArg Outcome.ok (Lemmas.Walk.walk_maxDesc snap o m _ rootE 0)
 
-/-! ### b. `contents_first` with a kind filter (repaired) and with `min_depth` (finding, open) -/
+/-! ### b. `contents_first` with a kind filter and with `min_depth`: both findings repaired -/
 
 /-- REPAIRED (was the finding `contents_first_ignores_filter`: deferred directories bypassed the
     kind filter, the traversal below yielded `[/f, /]`). `process` now filters before it defers;
@@ -112,35 +112,28 @@ theorem C08_repaired_contents_first_filter_witness :
   rw [h2] at h
   exact (Outcome.ok.inj h).symm
 
-/-- the finding that is NOT repaired (order): with `min_depth(1).contents_first()` over `/`, `/a/`,
-    `/b` the directory `/a` is yielded AFTER its later sibling `/b` (it stays deferred until the
-    stack is lower than the deferred list); the walk has `/a` first -/
-theorem C08_finding_contents_first_min_depth_order :
-    SnapWf snapM ∧ InSnap snapM rootM ∧ collectEntries snapM oM rootM = .ok [fileM, dirA] := by decide
+/-- REPAIRED (was the finding `contents_first_min_depth_order`: with `min_depth(1).contents_first()`
+    over `/`, `/a/`, `/b` the directory `/a` was yielded AFTER its later sibling `/b`, because a
+    deferred directory was only released when the stack was lower than the deferred list). The
+    deferred stack now records the depth a directory was found at, and the directory is released as
+    soon as the stack of open directories is back at that depth; on the former witness the
+    traversal yields what the spec says, `/a` before `/b` -/
+theorem C08_repaired_contents_first_min_depth_witness :
+    SnapWf snapM ∧ InSnap snapM rootM ∧
+    collectEntries snapM oM rootM = .ok [dirA, fileM] ∧ entriesSpec snapM oM rootM = [dirA, fileM] := by
+  have h2 : collectEntries snapM oM rootM = .ok [dirA, fileM] := by decide
+  refine ⟨by decide, by decide, h2, ?_⟩
+  have h := Lemmas.WalkCF.collectEntries_exact3 (snap := snapM) (o := oM) (rootE := rootM)
+    (by decide) (by decide) (by decide)
+  rw [h2] at h
+  exact (Outcome.ok.inj h).symm
 
-/-- hence the full statement still fails (the walk lists siblings by name, `/a` before `/b`) -/
-theorem C08_full_false : ¬ C08_full := by
-  intro h
-  have h1 := h snapM oM rootM (by decide) (by decide) rfl rfl (by decide)
-  have h2 : collectEntries snapM oM rootM = .ok [fileM, dirA] := by decide
-  rw [h2] at h1
-  have h3 := Lemmas.Walk.walk_siblings (by decide : SnapWf snapM) oM (snapM.length + 1) rootM 0 (by decide)
-  have h4 : entriesSpec snapM oM rootM = [fileM, dirA] := (Outcome.ok.inj h1).symm
-  unfold entriesSpec at h4
-  rw [h4] at h3
-  have h5 := (List.pairwise_cons.mp h3).1 dirA (by simp) [] ['b'] ['a'] rfl rfl
-  obtain ⟨p, n, n', e1, e2, e3⟩ := h5.2.2 (Or.inl ⟨rfl, rfl⟩)
-  have hp : p = [] := by
-    cases p with
-    | nil => rfl
-    | cons a t =>
-      have := congrArg List.length e1
-      simp [fileM, mkFileEntry] at this
-  subst hp
-  have hn : n = ['b'] := by simpa [fileM, mkFileEntry] using e1.symm
-  have hn' : n' = ['a'] := by simpa [dirA, mkDirEntry] using e2.symm
-  subst hn; subst hn'
-  exact absurd e3 (by decide)
+/-- after both repairs the full statement HOLDS: for every option combination (sorted, exclusive
+    kind filters, any depth window, `dirs_first`/`files_first`, `contents_first`, any cap) the
+    machine yields the walk -/
+theorem C08_full_holds : C08_full := by
+  intro snap o rootE hwf hroot hfol hsorted hk
+  exact Lemmas.WalkCF.collectEntries_exact3 hwf ⟨hfol, Or.inl hsorted, hk⟩ hroot
 
 /-! ### c. `contents_first` without kind filter and lower depth bound: the post-order walk -/
 
@@ -148,10 +141,10 @@ theorem C08_full_false : ¬ C08_full := by
     machine yields the post-order walk: every directory after its contents -/
 theorem C08_contents_first_partial (snap : Snap) (o : Opts) (rootE : Entry)
     (hwf : SnapWf snap) (hroot : InSnap snap rootE) (hfol : o.follow = false)
-    (hcf : o.contentsFirst = true) (hmin : o.minDepth = 0) (hfiles : o.files = false) (_hdirs : o.dirs = false)
+    (hcf : o.contentsFirst = true) (_hmin : o.minDepth = 0) (hfiles : o.files = false) (_hdirs : o.dirs = false)
     (hord : OrdOk o) :
     collectEntries snap o rootE = .ok (entriesSpec snap o rootE) :=
-  Lemmas.Walk.collectEntries_post hwf hfol ⟨hcf, hmin, hfiles⟩ hord hroot
+  Lemmas.Walk.collectEntries_post hwf hfol hcf (by unfold KindOk; simp [hfiles]) hord hroot
 
 /-- STRENGTHENED (after the repair): `contents_first` WITH a kind filter — `dirs()` or `files()`,
     `min_depth = 0`, any `max_depth`, ordering, cap — yields the post-order walk restricted to the
@@ -167,16 +160,25 @@ theorem C08_contents_first_filter_partial (snap : Snap) (o : Opts) (rootE : Entr
 /-- with `dirs().contents_first()` no side condition is needed -/
 theorem C08_contents_first_dirs_partial (snap : Snap) (o : Opts) (rootE : Entry)
     (hwf : SnapWf snap) (hroot : InSnap snap rootE) (hfol : o.follow = false)
-    (hcf : o.contentsFirst = true) (hmin : o.minDepth = 0) (hfiles : o.files = false) (hord : OrdOk o) :
+    (hcf : o.contentsFirst = true) (_hmin : o.minDepth = 0) (hfiles : o.files = false) (hord : OrdOk o) :
     collectEntries snap o rootE = .ok (entriesSpec snap o rootE) :=
-  Lemmas.Walk.collectEntries_post hwf hfol ⟨hcf, hmin, hfiles⟩ hord hroot
+  Lemmas.Walk.collectEntries_post hwf hfol hcf (by unfold KindOk; simp [hfiles]) hord hroot
 
-/-- model-level remark: `FlagsExcl` cannot be dropped. The model's `Entry` keeps `dir` and `file`
-    as independent flags; for an entry carrying both, `files().contents_first()` defers it although
-    the directories around it are not deferred, and it is yielded late -/
-theorem C08_flags_excl_needed :
+/-- STRENGTHENED (after the second repair): `contents_first` with ANY depth window and any
+    exclusive kind filter, no side condition -/
+theorem C08_contents_first_all_partial (snap : Snap) (o : Opts) (rootE : Entry)
+    (hwf : SnapWf snap) (hroot : InSnap snap rootE) (hfol : o.follow = false)
+    (hcf : o.contentsFirst = true) (hk : KindOk o) (hord : OrdOk o) :
+    collectEntries snap o rootE = .ok (entriesSpec snap o rootE) :=
+  Lemmas.Walk.collectEntries_post hwf hfol hcf hk hord hroot
+
+/-- model-level remark: since the second repair the side condition `FlagsExcl` (no entry carries
+    both kind flags) is NOT needed any more. On `snapX` (`/a` flagged directory AND file) the first
+    repair alone still yielded `[/g, /a]` for `files().contents_first()`; with the depth-tagged
+    deferred stack `/a` is released as soon as its (empty) contents are done -/
+theorem C08_flags_excl_not_needed :
     SnapWf snapX ∧ InSnap snapX rootX ∧ ¬ FlagsExcl snapX ∧
-    collectEntries snapX oX rootX = .ok [fileX, dirX] ∧ entriesSpec snapX oX rootX = [dirX, fileX] := by
+    collectEntries snapX oX rootX = .ok [dirX, fileX] ∧ entriesSpec snapX oX rootX = [dirX, fileX] := by
   decide
 
 /-! ### f. termination -/
@@ -194,8 +196,7 @@ theorem C08_never_hangs_no_follow (snap : Snap) (o : Opts) (rootE : Entry)
   obtain ⟨es, h⟩ := Lemmas.Walk.collectEntries_ok (o := o) hwf hfol hroot
   rw [h]; intro h'; cases h'
 
-/-- for EVERY option combination (including `contents_first` with `min_depth > 0`, where the order
-    is off): no path is yielded twice, and everything yielded is a
+/-- for EVERY option combination (also outside `KindOk` / `OrdOk`): no path is yielded twice, and everything yielded is a
     snapshot entry at or below the root, not deeper than `max_depth` -/
 theorem C08_each_once_all_options (snap : Snap) (o : Opts) (rootE : Entry) (es : List Entry)
     (hwf : SnapWf snap) (hroot : InSnap snap rootE) (hfol : o.follow = false)
@@ -353,6 +354,65 @@ example : ExactDom2 { sorted := true, contentsFirst := true, files := true, maxD
     ¬ ExactDom { sorted := true, contentsFirst := true, files := true, maxDepth := 2 } ∧
     FlagsExcl C08w.snapM ∧ FlagsExcl C08w.snapB ∧ FlagsOkFor C08w.snapM C08w.oB := by decide
 
+/-! ### d''. the same on the domain `ExactDom3` (after both repairs): NO restriction on
+  `contents_first` or the depth window, no side condition
+
+  `ExactDom3 o` (decidable, Lemmas/WalkCF.lean) = `follow = false ∧ OrdOk o ∧ KindOk o`. Every
+  theorem of d. and d'. is an instance (`ExactDom.to3`, `ExactDom2.to3`). -/
+
+theorem C08_exact3 (snap : Snap) (o : Opts) (rootE : Entry)
+    (hwf : SnapWf snap) (hroot : InSnap snap rootE) (hdom : ExactDom3 o) :
+    collectEntries snap o rootE = .ok (entriesSpec snap o rootE) :=
+  Lemmas.WalkCF.collectEntries_exact3 hwf hdom hroot
+
+theorem C08_exactDom2_sub (o : Opts) (hdom : ExactDom2 o) : ExactDom3 o := Lemmas.WalkCF.ExactDom2.to3 hdom
+
+theorem C08_membership3 (snap : Snap) (o : Opts) (rootE : Entry) (es : List Entry)
+    (hwf : SnapWf snap) (hroot : InSnap snap rootE) (hdom : ExactDom3 o)
+    (h : collectEntries snap o rootE = .ok es) (y : Entry) :
+    y ∈ es ↔ InSnap snap y ∧ ∃ t, y.path = rootE.path ++ t ∧ (t = [] ∨ t.length ≤ o.maxDepth) ∧
+      Chain snap rootE.path t ∧ selected o y t.length = true := by
+  rw [Lemmas.WalkCF.es_eq_of_exact3 hwf hroot hdom h, entriesSpec,
+    Lemmas.Walk.mem_walk_iff hwf o _ rootE 0 y hroot (Nat.lt_succ_of_le (Lemmas.Walk.pot_le _ _))]
+  simp only [Nat.zero_add]
+
+theorem C08_each_once3 (snap : Snap) (o : Opts) (rootE : Entry) (es : List Entry)
+    (hwf : SnapWf snap) (hroot : InSnap snap rootE) (hdom : ExactDom3 o)
+    (h : collectEntries snap o rootE = .ok es) : (es.map (·.path)).Nodup := by
+  rw [Lemmas.WalkCF.es_eq_of_exact3 hwf hroot hdom h]
+  exact Lemmas.Walk.walk_nodup hwf o _ rootE 0 hroot
+
+/-- nothing a filter or the depth window rejects is yielded, for every option combination -/
+theorem C08_filter_respected3 (snap : Snap) (o : Opts) (rootE : Entry) (es : List Entry)
+    (hwf : SnapWf snap) (hroot : InSnap snap rootE) (hdom : ExactDom3 o)
+    (h : collectEntries snap o rootE = .ok es) :
+    ∀ y ∈ es, InSnap snap y ∧ rootE.path <+: y.path ∧
+      (o.files = true → y.file = true) ∧ (o.dirs = true → y.dir = true) ∧
+      o.minDepth ≤ y.path.length - rootE.path.length ∧
+      (y = rootE ∨ y.path.length - rootE.path.length ≤ o.maxDepth) := by
+  rw [Lemmas.WalkCF.es_eq_of_exact3 hwf hroot hdom h]
+  exact Lemmas.Walk.spec_filter_respected hwf o hroot
+
+/-- with `contents_first` (any depth window, any filter) contents come before their parents -/
+theorem C08_contents_before_parents3 (snap : Snap) (o : Opts) (rootE : Entry) (es : List Entry)
+    (hwf : SnapWf snap) (hroot : InSnap snap rootE) (hdom : ExactDom3 o)
+    (hcf : o.contentsFirst = true) (h : collectEntries snap o rootE = .ok es) :
+    es.Pairwise (fun a b => ¬ (a.path <+: b.path ∧ a.path ≠ b.path)) := by
+  rw [Lemmas.WalkCF.es_eq_of_exact3 hwf hroot hdom h]
+  exact Lemmas.Walk.walk_contents_first hwf o hcf _ rootE 0 hroot
+
+theorem C08_sorted_siblings3 (snap : Snap) (o : Opts) (rootE : Entry) (es : List Entry)
+    (hwf : SnapWf snap) (hroot : InSnap snap rootE) (hdom : ExactDom3 o)
+    (h : collectEntries snap o rootE = .ok es) :
+    es.Pairwise (fun a b => ∀ p n n', a.path = p ++ [n] → b.path = p ++ [n'] → sibOrd o a b) := by
+  rw [Lemmas.WalkCF.es_eq_of_exact3 hwf hroot hdom h]
+  exact Lemmas.Walk.walk_siblings hwf o _ rootE 0 hroot
+
+/-- non-vacuity: the domain contains `contents_first` with `min_depth` and a filter -/
+example : ExactDom3 { sorted := true, contentsFirst := true, files := true, minDepth := 2, maxDepth := 5 } ∧
+    ExactDom3 C08w.oM ∧ ¬ ExactDom2 C08w.oM ∧ ExactDom3 { contentsFirst := true, dirs := true, minDepth := 1 } := by
+  decide
+
 /-! ### e. the listing helpers `paths`/`dirs`/`files` (`maxDepth = some 1`) and `all_*` (`none`)
 
   Stated over the state-level `listing`. Two facts about `_clone_entries` are taken as EXPLICIT
@@ -413,13 +473,12 @@ example : ∃ rootE snap, Spec.Inv sL ∧ isDirP sL [['a']] = true ∧ entriesOf
   --   explicit decidable hypotheses of `C08_listing_helpers`, checked by `#eval` on model-generated
   --   states with links in Rivia/Spec/WalkTest.lean.
   -- * `follow = true` (LinkLooping instead of endless descent): no spec written yet.
-  -- * exactness with `contents_first` and `min_depth > 0` is FALSE (finding
-  --   `contents_first_min_depth_order` in b., not repaired); what holds there for every option
-  --   combination is `C08_terminates_no_follow` and `C08_each_once_all_options`.
-  --   (`contents_first` with a kind filter: repaired, exact on `ExactDom2`, d'.)
-  -- * `FlagsExcl snap` is a hypothesis here (`Spec.Inv` alone does not record that `dir` and `file`
-  --   are exclusive); it is discharged from `C03_Strong` in Props/C08S.lean (`flagsExcl_of_strong`,
-  --   `C08_exact2_strong`, `C08_exact2_reachable`).
+  -- * both `contents_first` findings are repaired: the machine is exact on `ExactDom3` (d''.),
+  --   `C08_full` holds (`C08_full_holds`). Outside `ExactDom3` only: both kind flags at once
+  --   (`KindOk`; no builder call sequence sets both) and grouping flags without `sort_by_name`
+  --   (`OrdOk`; the builder sets them together) — there `C08_terminates_no_follow` and
+  --   `C08_each_once_all_options` hold.
+  -- * `FlagsOkFor` / `FlagsExcl` (hypotheses of the d'. theorems) are no longer used by any proof.
 -/
 
 end Rivia.Props
